@@ -64,7 +64,9 @@ var sliceStructure = &structure{
 				switch in.Kind {
 				case "Append":
 					n := sp.Val % 4 // 0..3 items; Append() with no item is allowed by the signature
-					items := make([]int, n)
+					// the batch is the caller's: it has spare capacity, and the caller reuses it (overwrites it and the
+					// capacity behind it) as soon as Append has returned
+					items := make([]int, n, n+3)
 					b := make([]byte, n)
 					for j := range items {
 						items[j] = g*20 + i*4 + j + 1
@@ -72,6 +74,10 @@ var sliceStructure = &structure{
 					}
 					in.Items = string(b)
 					out.N = s.Append(items...)
+					items = items[:cap(items)]
+					for j := range items {
+						items[j] = 250 + j
+					}
 				case "Len":
 					out.N = s.Len()
 				case "Slice":
